@@ -3,7 +3,7 @@ import ast
 
 import z3
 
-from .sorts import (PyDict, PyProperty, ArrT, SV, PyVal, PyTuple, Closure, BoundMethod, ModuleRef, ClassRef, SpecFn, INT, BOOL, STR, REAL, VAL, NONE,
+from .sorts import (PyNav, PyDict, PyProperty, ArrT, SV, PyVal, PyTuple, Closure, BoundMethod, ModuleRef, ClassRef, SpecFn, INT, BOOL, STR, REAL, VAL, NONE,
                     NONE_V, RefT, SeqT, SetT, MapT, TupT, Val, Ref, null, zsort, fresh, mk_bool, mk_int, mk_str, fresh_name)
 from .values import (mem, nth, OutsideSubset, coerce, box, unbox, py_eq, truthy, ite, tup_items, empty_map, join_sort, is_ref,
                      int_to_str, default_term)
@@ -324,8 +324,12 @@ class ExprMixin(object):
         """cheap pruning of exception branches that the path condition already excludes (unknown counts as feasible)"""
         s = z3.Solver()
         s.set('timeout', 300)
-        s.add(*st.pc)
-        s.add(cond)
+        s.set('rlimit', 3000000)
+        for f in st.pc:
+            if not self.has_recfun(f):
+                s.add(f)
+        if not self.has_recfun(cond):
+            s.add(cond)
         return s.check() != z3.unsat
 
     def format_percent(self, fmt, arg, st):
@@ -388,6 +392,17 @@ class ExprMixin(object):
         left = self.ev(node.left, st)
         conj = []
         for op, rn in zip(node.ops, node.comparators):
+            if isinstance(op, (ast.In, ast.NotIn)) and isinstance(rn, ast.Call) and isinstance(rn.func, ast.Name) and rn.func.id == 'range' \
+                    and len(rn.args) in (1, 2) and not isinstance(left, PyVal):
+                bounds = [self.ev(a, st).t for a in rn.args]
+                lo, hi = (z3.IntVal(0), bounds[0]) if len(bounds) == 1 else bounds
+                if left.sort == VAL:
+                    inr = z3.And(Val.is_VInt(left.t), lo <= Val.ival(left.t), Val.ival(left.t) < hi)
+                else:
+                    x = coerce(left, INT).t
+                    inr = z3.And(lo <= x, x < hi)
+                conj.append(inr if isinstance(op, ast.In) else z3.Not(inr))
+                continue
             if isinstance(op, (ast.In, ast.NotIn)) and isinstance(rn, (ast.List, ast.Tuple, ast.Set)):
                 right = PyTuple([self.ev(e, st) for e in rn.elts])       # membership in a literal: element-wise ==
             else:
@@ -510,6 +525,10 @@ class ExprMixin(object):
             if ci and attr in ci['attrs'] and isinstance(ci['attrs'][attr], ast.Constant):
                 return self.ev_Constant(ci['attrs'][attr], st)
             raise OutsideSubset('class attribute %s.%s' % (base.name, attr))
+        if isinstance(base, PyNav):
+            if attr == 'nav':
+                return BoundMethod(base, 'nav')
+            return PyNav(base.kind, base.handle, base.chain, attr)
         if isinstance(base, PyProperty) and attr in ('fget', 'fset'):
             f = getattr(base, attr)
             if f is None:
@@ -529,6 +548,9 @@ class ExprMixin(object):
             pc = self.reg.method(s.cls, attr)
             if pc is not None and pc.kind == 'property':
                 return self.call_contract(pc, [base], {}, st)
+            if self.reg.class_info(s.cls, 'instance_attrs') and pc is None:
+                f = z3.Function('u_attr_value', Ref, z3.StringSort(), Val)
+                return SV(VAL, f(base.t, z3.StringVal(attr.upper())))
             return BoundMethod(base, attr)
         if s in (STR,) or isinstance(s, (SeqT, MapT, SetT)) or s == VAL:
             return BoundMethod(base, attr)
@@ -565,6 +587,17 @@ class ExprMixin(object):
                 if z3.is_int_value(i):
                     return base.items[i.as_long()]
             raise OutsideSubset('tuple index')
+        if isinstance(base, PyNav):
+            if base.pending is None:
+                raise OutsideSubset('navigation step without a class')
+            items = idx.items if isinstance(idx, PyTuple) else [idx]
+            rel = z3.simplify(items[0].t)
+            phrase = z3.simplify(items[1].t) if len(items) > 1 else z3.StringVal('')
+            if not (z3.is_int_value(rel) or z3.is_string_value(rel)) or not z3.is_string_value(phrase):
+                raise OutsideSubset('navigation step with a computed association')
+            relt = 'R%d' % rel.as_long() if z3.is_int_value(rel) else rel.as_string()
+            step = '%s[%s%s]' % (base.pending.upper(), relt, (",'%s'" % phrase.as_string()) if phrase.as_string() else '')
+            return PyNav(base.kind, base.handle, base.chain + ('.' if base.chain else '') + step, None)
         if isinstance(base, PyDict):
             keys = list(base.items)
             k = coerce(idx, STR).t
